@@ -160,7 +160,9 @@ def run_patch(spec, acc):
             if e0.h_x / 2 <= 1.0001e-5:
                 break
             ls.apply(('b', ls.leaves().index(e0), 1))
-        deep_leaves = sorted(ls.leaves(), key=lambda e: e.h_x)[:4]
+        # the shortest leaves at the deep spot; the closure also shortens leaves on the other side of the seam (x_hat ~ L), whose node
+        # coordinates are ill-conditioned in the sense above: they are not judged in this shard
+        deep_leaves = sorted([e for e in ls.leaves() if e.space_interval[1] <= 1e-3], key=lambda e: e.h_x)[:4]
         acc.seen('mesh:deep-in-space')
     mesh = ls.mesh
     elems = list(mesh.leaf_elements)
@@ -169,8 +171,8 @@ def run_patch(spec, acc):
     acc.seen('curve:' + curve)
     Lc = geo.length
     sample = elems if len(elems) <= spec['n_elem'] else rng.sample(elems, spec['n_elem'])
-    if deep_leaves:
-        sample = [e for e in sample if e not in deep_leaves][:max(2, spec['n_elem'] - 4)] + deep_leaves
+    if spec.get('deep'):
+        sample = [e for e in sample if e not in deep_leaves and e.h_x >= 1e-3][:max(2, spec['n_elem'] - 4)] + deep_leaves
     orders = [1, 3, 5, 7, 9, 11, 13, 15, 17, 19]
 
     def patch_kind(e, nb):
